@@ -57,6 +57,16 @@ def _scaled_constant(e):
     return None
 
 
+def _fp_const(node, cv):
+    """a positive floating constant (a floating literal with an integral value is still a floating constant)"""
+    if isinstance(cv, bool) or not isinstance(cv, (int, float)) or not cv > 0:
+        return False
+    if isinstance(cv, float) and cv != int(cv):
+        return True
+    n0 = strip_casts(node) if node is not None else {}
+    return (n0.get('t') or {}).get('c') == 'fp' or n0.get('k') == 'Float'
+
+
 def is_tolerance_test(cond):
     for y in walk(cond):
         if y.get('k') == 'Bin' and y.get('op') in ('<', '<=') and _magnitude(y.get('l')) and _scaled_constant(y.get('r')):
@@ -73,11 +83,11 @@ def is_tolerance_test(cond):
             return 'the tolerance helper %s()' % (y.get('fn') or '').split('<')[0].split('::')[-1]
         if y.get('k') == 'Bin' and y.get('op') in ('<', '<='):
             cv = const_value(y.get('r'))
-            if isinstance(cv, float) and cv > 0:
+            if _fp_const(y.get('r'), cv):
                 return 'a comparison with the absolute constant %g' % cv
         if y.get('k') == 'Bin' and y.get('op') in ('>', '>='):
             cv = const_value(y.get('l'))
-            if isinstance(cv, float) and cv > 0:
+            if _fp_const(y.get('l'), cv):
                 return 'a comparison with the absolute constant %g' % cv
     return None
 
